@@ -126,6 +126,29 @@ class World:
     def absent_id(self):
         return 'ABSENT§%d' % (self.evidx % 7)
 
+    def absent_like(self, ids, variant):
+        """an id that is NOT in ids but resembles one that is (a longer id
+        with an existing id as prefix, a prefix, a case variant, ...)"""
+        ids = list(ids)
+        v = variant % 5
+        cand = None
+        if ids:
+            base = ids[(variant // 5) % len(ids)]
+            longest = max(ids, key=len)
+            if v == 1:
+                cand = longest + 'x'
+            elif v == 2:
+                cand = base + '0'
+            elif v == 3:
+                cand = base[:-1]
+            elif v == 4:
+                cand = base.swapcase()
+        if not cand or cand in ids or cand != cand.strip():
+            cand = self.absent_id()
+        while cand in ids:
+            cand += '?'
+        return cand
+
     def case(self, oracle, op, slot=None, **kw):
         key = [oracle, op]
         if slot is not None:
